@@ -29,7 +29,7 @@ def load_known():
 def reader_oracle(fn):
     """lift an oracle on parsed reader cases to raw lines"""
     def f(c, o, s):
-        if not (c.startswith('R ') or c.startswith('A ')):
+        if not (c.startswith('R ') or c.startswith('A ') or c.startswith('P ')):
             return None
         case = parse_case(c)
         toks, log = split_obs(canon(o))
